@@ -205,7 +205,109 @@ pub fn all_enums<S: Src>(s: &mut S) {
     display_time_zone_names(s);
 }
 
+/// duration text: every non-zero component is written with its designator, the sub-second part as a fraction of the
+/// seconds; decoded by a streaming decoder (digits accumulate, a letter closes a component)
+pub fn duration_writer<S: Src>(s: &mut S, digits_opt: u8, small: bool) {
+    use temporal_rs::parsers::{FormattableDateDuration, FormattableDuration, FormattableTimeDuration};
+    let neg = s.bool();
+    let has_date = if small { false } else { s.bool() };
+    let (y, mo, w, d) = if small { (0, 0, 0, 0) } else { (s.u32_in(0, 99), s.u32_in(0, 99), s.u32_in(0, 99), s.u32_in(0, 999) as u64) };
+    let top = if small { 9 } else { 999 };
+    let (h, mi, sec) = (s.u32_in(0, top) as u64, s.u32_in(0, top) as u64, s.u32_in(0, top) as u64);
+    let ns = s.u32_in(0, 999_999_999);
+    let precision = if digits_opt == 10 { Precision::Auto } else { Precision::Digit(digits_opt) };
+    let date = if has_date { Some(FormattableDateDuration { years: y, months: mo, weeks: w, days: d }) } else { None };
+    // the caller's contract (duration_to_formattable): the date part is present iff one of its fields is non-zero
+    s.assume(has_date == (y != 0 || mo != 0 || w != 0 || d != 0));
+    let f = FormattableDuration {
+        precision,
+        sign: if neg { temporal_rs::Sign::Negative } else { temporal_rs::Sign::Positive },
+        date,
+        time: Some(FormattableTimeDuration::Seconds(h, mi, sec, Some(ns))),
+    };
+    let mut k = Sink::new();
+    let r = f.write_to(&mut k);
+    vassert!(s, "C11.duration.writes", r.is_ok() && !k.overflow);
+    // decode
+    let (mut gy, mut gmo, mut gw, mut gd, mut gh, mut gmi, mut gs) = (0u64, 0u64, 0u64, 0u64, 0u64, 0u64, 0u64);
+    let (mut acc, mut frac, mut fdig, mut in_frac, mut in_time, mut bad, mut gneg, mut seen_p) = (0u64, 0u64, 0u32, false, false, false, false, false);
+    let scan = if small { 24 } else { 40 };
+    if small {
+        vassert!(s, "C11.duration.writes", k.len <= 24);
+    }
+    for i in 0..scan {
+        if i >= k.len {
+            break;
+        }
+        let c = k.buf[i];
+        match c {
+            b'-' if i == 0 => gneg = true,
+            b'P' if !seen_p => seen_p = true,
+            b'T' if !in_time => in_time = true,
+            b'0'..=b'9' => {
+                if in_frac {
+                    frac = frac * 10 + (c - b'0') as u64;
+                    fdig += 1;
+                } else {
+                    acc = acc * 10 + (c - b'0') as u64;
+                }
+            }
+            b'.' if in_time && !in_frac => in_frac = true,
+            b'Y' if !in_time => { gy = acc; acc = 0; }
+            b'M' if !in_time => { gmo = acc; acc = 0; }
+            b'W' if !in_time => { gw = acc; acc = 0; }
+            b'D' if !in_time => { gd = acc; acc = 0; }
+            b'H' if in_time => { gh = acc; acc = 0; }
+            b'M' if in_time => { gmi = acc; acc = 0; }
+            b'S' if in_time => { gs = acc; acc = 0; }
+            _ => bad = true,
+        }
+    }
+    let want_frac = if digits_opt == 10 { ns as u64 } else { ns as u64 / POW10[(9 - digits_opt) as usize] as u64 };
+    // value of the written fraction in nanoseconds
+    let got_frac_ns = if fdig == 0 || fdig > 9 { 0 } else { frac * POW10[(9 - fdig) as usize] as u64 };
+    let want_frac_ns = if digits_opt == 10 { ns as u64 } else { want_frac * POW10[(9 - digits_opt) as usize] as u64 };
+    vcover!(s, "C11.duration.fraction_with_zero_seconds_and_hours", sec == 0 && ns != 0 && h != 0);
+    vcover!(s, "C11.duration.zero", !has_date && h == 0 && mi == 0 && sec == 0 && ns == 0);
+    vassert!(s, "C11.duration.well_formed", seen_p && !bad && gneg == neg && acc == 0);
+    vassert!(s, "C11.duration.date_components_round_trip", gy == y as u64 && gmo == mo as u64 && gw == w as u64 && gd == d);
+    vassert!(s, "C11.duration.time_components_round_trip", gh == h && gmi == mi && gs == sec);
+    vassert!(s, "C11.duration.sub_second_part_round_trips", got_frac_ns == want_frac_ns);
+    if digits_opt != 10 {
+        vassert!(s, "C11.duration.exactly_the_requested_fraction_digits", fdig == digits_opt as u32);
+    } else {
+        vassert!(s, "C11.duration.minimal_fraction_digits", fdig == 0 && ns == 0 || fdig > 0 && frac % 10 != 0);
+    }
+}
+
+/// the sub-second part of a duration is never dropped: with automatic precision the text has a fraction iff the
+/// nanoseconds are non-zero, and then ends with the seconds designator
+pub fn duration_fraction_kept<S: Src>(s: &mut S) {
+    use temporal_rs::parsers::{FormattableDuration, FormattableTimeDuration};
+    let (h, mi, sec) = (s.u8_in(0, 9) as u64, s.u8_in(0, 9) as u64, s.u8_in(0, 9) as u64);
+    let ns = s.u32_in(0, 999_999_999);
+    let f = FormattableDuration { precision: Precision::Auto, sign: temporal_rs::Sign::Positive, date: None, time: Some(FormattableTimeDuration::Seconds(h, mi, sec, Some(ns))) };
+    let mut k = Sink::new();
+    let r = f.write_to(&mut k);
+    vassert!(s, "C11.duration.writes", r.is_ok() && !k.overflow && k.len <= 24 && k.len >= 1);
+    let mut dot = false;
+    for i in 0..24 {
+        if i < k.len && k.buf[i] == b'.' {
+            dot = true;
+        }
+    }
+    vcover!(s, "C11.duration.fraction_with_zero_seconds_and_hours", sec == 0 && ns != 0 && h != 0);
+    vassert!(s, "C11.duration.sub_second_part_is_written_iff_non_zero", dot == (ns != 0));
+    if ns != 0 && k.len >= 1 && k.len <= 24 {
+        vassert!(s, "C11.duration.fraction_belongs_to_the_seconds", k.buf[k.len - 1] == b'S');
+    }
+}
+
 crate::harnesses! { REGISTRY;
+    c11_duration_fraction_kept [unwind 26] = |s| duration_fraction_kept(s);
+    c11_duration_writer_small_auto [unwind 42] = |s| duration_writer(s, 10, true);
+    c11_duration_writer_auto [unwind 42] = |s| duration_writer(s, 10, false);
+    c11_duration_writer_digit3 [unwind 42] = |s| duration_writer(s, 3, false);
     c11_date_writer [unwind 12] = |s| date_writer(s);
     c11_time_writer_auto [unwind 12] = |s| time_writer(s, 10);
     c11_time_writer_minute [unwind 12] = |s| time_writer(s, 11);
